@@ -231,19 +231,10 @@ def run(chk):
             # the caller keeps only the Futures (monitors only: no model event for a dropped cache)
             drops = [cc.parse_line(l[5:]) for l in corpus_lines if l.startswith("drop ftc")]
             drops += drop_scripts(chk.rng, 24 if quick else 300, trials=4 if quick else 10)
-            for sc in drops:
-                chk.count_case("drop-cache-outstanding-futures", sc.line(), True)
             # liveness only: after the drop a Load that finds the cache closed runs its loader itself, so the
             # parallelism / queue-size monitors of the other streams do not apply
-            for sc, whole in zip(drops, cc.run_ft(binary, [sc.line() for sc in drops])):
-                if whole.startswith("PANIC"):
-                    chk.monitor_fail("panic", sc.line(), whole[:500], whole[:300])
-                    continue
-                for log in cc.split_trials(whole):
-                    mf = cc.monitor_liveness(sc, log)
-                    if mf:
-                        chk.monitor_fail("future-unresolved-after-cache-dropped" if mf[0] == "hang" else mf[0], sc.line(), log.text[:3000],
-                                         "the script drops its last reference to the cache after a burst of Loads and keeps the Futures: " + mf[1])
+            cc.run_drop_stream(chk, binary, "drop-cache-outstanding-futures", drops, cc.monitor_liveness,
+                               "the script drops its last reference to the cache after a burst of Loads and keeps the Futures: ")
             # platform dependence: a sample of the burst scripts in a single-P process (GOMAXPROCS=1), monitors only: whatever
             # the library derives from the number of processors, every call must still return and every Future resolve
             onep = [sc for sc in streams[1][1][:12]] + [sc for sc in streams[2][1][:6]]
